@@ -37,7 +37,11 @@ theorem C05.addRawTx_error_noop (n : Node) (ts : Nat) (h : String) (idx : Nat) (
           · rfl
           · rename_i h4
             rw [if_neg h4] at he
-            split at he <;> cases he
+            split
+            · rfl
+            · rename_i h5
+              rw [if_neg h5] at he
+              split at he <;> cases he
       · rw [if_neg h2] at he ⊢
         split <;> rfl
     · rw [if_neg h1] at he ⊢
